@@ -36,6 +36,8 @@ def tree(kind):
         "only_inc/v.inc": "m_v_inc",
         # suffixes that are more than the text after the last dot
         "tmpl.F90.in": "m_tmpl_in", "sub/kern_gen": "m_kern_gen", "sub/t2.F90.in": "m_t2_in", "old.F90.in.bak": "x_in_bak", "only_tmpl/w.F90.in": "m_w_in",
+        # directory names that are not their own glob pattern ("run[1]" as a pattern means "run1")
+        "run[1]/b2.f90": "m_br_b", "run[1]/deep/c2.F90": "m_br_c", "run1/d2.f90": "m_run1_d",
     }
     if kind == "nested_only":
         T = {k: v for k, v in T.items() if "/" in k}
